@@ -111,7 +111,17 @@ def tie_stage(spec, data, tier, seed):
     for name in spec.processes:
         L = encs.get(name)
         if L is None:
+            # the encoder could not be imported (it binds the real function at import) or the function is gone
             missing.append(name)
+            disagreements.append(dict(process=name, source="recorder", line="", expected="", got="",
+                                      note="the function this correspondence observes was not found in the implementation "
+                                           "(renamed, moved or removed): correspondence not established"))
+            continue
+        if getattr(L, "NAME", name) in rec.MISSING:
+            missing.append(name)
+            disagreements.append(dict(process=name, source="recorder", line="", expected="", got="",
+                                      note="the function this correspondence observes was not found in the implementation "
+                                           "(renamed, moved or removed): correspondence not established"))
             continue
         pairs = data["pairs"].get(name, [])
         if len(pairs) > cap:
@@ -342,7 +352,8 @@ def replay(pid, path):
         print(json.dumps(doc, indent=1)[:3000])
         print("replay: this file names a theorem/correspondence that did not check; re-run ./check", pid)
         return 1
-    if spec.replay is not None and doc.get("kind") not in (None, "scenario"):
+    if spec.replay is not None and (doc.get("kind") not in (None, "scenario") or not spec.oracles):
+        # properties decided by a differential / sweep oracle: re-run that oracle on the replay's scenario
         vs = spec.replay(doc)
     else:
         scen = doc["scenario"]
